@@ -26,6 +26,22 @@ CHECKS = {
    text="Over rustc's MIR of pdl-compiler, pdlc and pdl-derive: every hash-ordered iteration ends in an order-erasing "
         "consumer, no ambient input is read, and every generator entry point receives the value of analyze()'s Ok on "
         "all three front-ends (CLI, #[pdl], #[pdl_inline]).", ref="7/C11"),
+ "C12": dict(level="other", technique="grammar-vs-confirmed-normal-form comparison (pest AST), converter/grammar agreement, arm exhaustiveness, who-may-call (MIR), loc provenance (syn)",
+   text="Structural clauses of parser fidelity decided on the source: the pest grammar normalises to the production set "
+        "confirmed against doc/reference.md; the integer converter strips every prefix the grammar accepts; every grammar "
+        "alternative has a converter arm building an AST node; Pair::into_inner only via the comment-filtering helper; "
+        "every AST node's loc comes from as_loc of the pair being converted; line starts come from the renderer's function. "
+        "Value-level AST equality is not decided.", ref="7/C12"),
+ "C09": dict(level="other", technique="three-valued evaluation of the topological-sort producer against Schema's consumers, MIR def-use of the sorted file, syn rules on inline_groups, sibling predicate agreement",
+   text="Order independence is decided as producer/consumer agreement: for every FieldDesc shape and declaration kind "
+        "whose size Schema::new needs, check_decl_identifiers::bfs visits the referenced declaration first on every "
+        "non-failing path; all passes receive the sorted file; groups inline to fixed fields with the same range guard. "
+        "Equality of two compiler runs is not decided.", ref="7/C09"),
+ "C08": dict(level="other", technique="error-discipline and exhaustiveness rules (syn + MIR call graph), gate def-use rules, guard-skeleton inventory vs confirmed inventory",
+   text="Every Diagnostics-returning pass is called and propagated by analyze(); every ErrorCode is raised on a reachable "
+        "path with a primary label built from a node's own range; no backend is reachable except through analyze()'s Ok; "
+        "the conditions guarding each of the 53 diagnostics equal the inventory confirmed against the reference (boundary "
+        "operators, inclusive ranges, matched shapes).", ref="7/C08"),
 }
 NOT_APPLICABLE = {
  "C19": "Java backend: no Java front-end to the abstract interpreter can be built and validated in this sandbox "
